@@ -321,14 +321,15 @@ theorem reconnectDev_clock (c : CS) (tmo : Option Time) : SameClock c (reconnect
 /-- to show `Post` of a run of `_process_action` from a state satisfying `Pre`: show `Post` of every iteration that ends
     the loop and `Pre` after every iteration that goes on (running out of the model's fuel is an abort) -/
 theorem processActionF_ind {Pre : CS → Option Time → Prop} {Post : PA → Prop}
-    (hfuel : ∀ (c : CS) o out tmo, Post ({ c with aborted := true }, o, out ++ [Out.abortAssert "model: fuel exhausted"], tmo))
+    (hfuel : ∀ (c : CS) o out tmo, Pre c tmo →
+        Post ({ c with aborted := true }, o, out ++ [Out.abortAssert "model: fuel exhausted"], tmo))
     (hstop : ∀ c o out tmo, Pre c tmo → (bodyStep c o out tmo).2 = false → Post (bodyStep c o out tmo).1)
     (hgo : ∀ c o out tmo, Pre c tmo → (bodyStep c o out tmo).2 = true →
         Pre (bodyStep c o out tmo).1.1 (bodyStep c o out tmo).1.2.2.2)
     (fuel : Nat) (c : CS) (o : Oracle) (out : List Out) (tmo : Option Time) (h : Pre c tmo) :
     Post (processActionF fuel c o out tmo) := by
   induction fuel generalizing c o out tmo with
-  | zero => exact hfuel c o out tmo
+  | zero => exact hfuel c o out tmo h
   | succ n ih =>
     rw [processActionF_succ]
     unfold andThen
@@ -487,7 +488,7 @@ theorem bodyStep_timer (c : CS) (o : Oracle) (out : List Out) (tmo : Option Time
 theorem processActionF_timer (fuel : Nat) (c : CS) (o : Oracle) (out : List Out) (tmo : Option Time)
     (hb : BackCov c tmo) : TimerPost (processActionF fuel c o out tmo) :=
   processActionF_ind (Pre := BackCov) (Post := TimerPost)
-    (fun _ _ _ _ hna => by simp at hna)
+    (fun _ _ _ _ _ hna => by simp at hna)
     (fun c o out tmo h => (bodyStep_timer c o out tmo h).1)
     (fun c o out tmo h => (bodyStep_timer c o out tmo h).2) fuel c o out tmo hb
 
@@ -519,4 +520,1281 @@ theorem postPoll_timer (d : Dev) (env : Env) (o : Oracle) : TimerPost (postPoll 
   · rename_i h; intro hna; simp [h] at hna
   · exact processActionF_timer _ _ _ _ _ (postPollPing_backCov _ _ (postPollReconnect_backCov _))
 
+/-! ## 7. the clock of the pass and the device time-out are constants of the pass -/
+
+def SameNow (c c' : CS) : Prop := c'.env.now = c.env.now ∧ c'.dev.timeout = c.dev.timeout
+
+theorem SameNow.trans {a b c : CS} (h1 : SameNow a b) (h2 : SameNow b c) : SameNow a c :=
+  ⟨h2.1.trans h1.1, h2.2.trans h1.2⟩
+theorem SameClock.sameNow {c c' : CS} (h : SameClock c c') : SameNow c c' := ⟨h.now, h.timeout⟩
+
+theorem failAll_now (rest : List Action) (c : CS) (a : Action) (o : Oracle) (out : List Out) (tmo : Option Time) :
+    SameNow c (failAll rest c a o out tmo).1 := by
+  unfold failAll
+  dsimp only
+  split
+  · exact (reconnectDev_clock { c with dev := { c.dev with acts := [] } } tmo).sameNow
+  · exact ⟨rfl, rfl⟩
+
+theorem onRunStep_now (rest : List Action) (c : CS) (a : Action) (o : Oracle) (out : List Out) (tmo : Option Time)
+    (left : Time) : SameNow c (onRunStep rest c a o out tmo left).1.1 := by
+  unfold onRunStep
+  dsimp only
+  have hT := (innerLoop_timer c.env.now (loopBound a) { c.dev with wake := none } a o []).1.timeout
+  generalize innerLoop c.env.now (loopBound a) { c.dev with wake := none } a o [] = r at *
+  simp only at hT
+  split
+  · exact ⟨rfl, hT⟩
+  · split
+    · exact ⟨rfl, hT⟩
+    · split
+      · split <;> exact ⟨rfl, hT⟩
+      · exact SameNow.trans (b := { c with dev := r.dev }) ⟨rfl, hT⟩ (failAll_now _ _ _ _ _ _)
+
+theorem bodyStep_now (c : CS) (o : Oracle) (out : List Out) (tmo : Option Time) : SameNow c (bodyStep c o out tmo).1.1 := by
+  unfold bodyStep
+  split
+  · exact ⟨rfl, rfl⟩
+  · split
+    · exact ⟨rfl, rfl⟩
+    · dsimp only
+      split
+      · rw [Fd.onTimeout_eq_failAll]; exact failAll_now _ _ _ _ _ _
+      · split
+        · exact ⟨rfl, rfl⟩
+        · exact onRunStep_now _ _ _ _ _ _ _
+
+theorem processActionF_now (fuel : Nat) (c : CS) (o : Oracle) (out : List Out) (tmo : Option Time) :
+    SameNow c (processActionF fuel c o out tmo).1 :=
+  processActionF_ind (Pre := fun c' _ => SameNow c c') (Post := fun r => SameNow c r.1)
+    (fun _ _ _ _ h => h)
+    (fun c' o out tmo h _ => h.trans (bodyStep_now c' o out tmo))
+    (fun c' o out tmo h _ => h.trans (bodyStep_now c' o out tmo)) fuel c o out tmo ⟨rfl, rfl⟩
+
+theorem postPollPing_now (now : Time) (r : CS × Option Time) : SameNow r.1 (postPollPing now r).1 := by
+  unfold postPollPing appendPing
+  split
+  · split
+    · split <;> exact ⟨rfl, rfl⟩
+    · exact ⟨rfl, rfl⟩
+  · exact ⟨rfl, rfl⟩
+
+theorem postPollReconnect_now (r : CS × Bool) : SameNow r.1 (postPollReconnect r).1 := by
+  unfold postPollReconnect
+  split
+  · exact (reconnectDev_clock _ _).sameNow
+  · exact ⟨rfl, rfl⟩
+
+theorem postPollReady_now (d : Dev) (env : Env) :
+    (postPollReady d env).1.env.now = env.now ∧ (postPollReady d env).1.dev.timeout = d.timeout := by
+  unfold postPollReady
+  generalize (if d.fd.isSome then env.revents else 0) = fl
+  split
+  · have := handleReady_retry { dev := d, env := { env with revents := fl }, sys := [] }
+    exact ⟨this.now, this.timeout⟩
+  · exact ⟨rfl, rfl⟩
+
+/-- the time of the pass and the device's time-out are the same at the end of `dev_post_poll` as at its beginning -/
+theorem postPoll_now (d : Dev) (env : Env) (o : Oracle) :
+    (postPoll d env o).1.env.now = env.now ∧ (postPoll d env o).1.dev.timeout = d.timeout := by
+  rw [Login2.postPoll_eq]
+  unfold Login2.postPoll'
+  have h1 := postPollReady_now d env
+  split
+  · exact h1
+  · have h2 := postPollReconnect_now (postPollReady d env)
+    have h3 := postPollPing_now env.now (postPollReconnect (postPollReady d env))
+    have h4 := processActionF_now (passFuel (postPollPre d env).1.dev) (postPollPre d env).1 o [] (postPollPre d env).2
+    unfold processAction
+    unfold postPollPre at h4 ⊢
+    exact ⟨h4.1.trans (h3.1.trans (h2.1.trans h1.1)), h4.2.trans (h3.2.trans (h2.2.trans h1.2))⟩
+
+/-! ## 8. tenure: a head whose deadline has passed is failed, and the whole queue with it -/
+
+theorem stamp_of_stamped (now : Time) (a : Action) (ts : Time) (h : a.timeStamp = some ts) : stamp now a = a := by
+  unfold stamp; simp [h]
+
+/-- `_process_action` called on a queue whose head is overdue takes the time-out branch at once -/
+theorem processActionF_overdue (fuel : Nat) (c : CS) (o : Oracle) (out : List Out) (tmo : Option Time)
+    (a0 : Action) (rest : List Action) (ts : Time) (hna : c.aborted = false) (hacts : c.dev.acts = a0 :: rest)
+    (hts : a0.timeStamp = some ts) (hdue : c.env.now ≥ ts + c.dev.timeout) :
+    processActionF (fuel + 1) c o out tmo =
+      failAll rest c { a0 with errnum := Fd.timeoutErr c.dev } o (out ++ Fd.timeoutTele c.dev a0) tmo := by
+  rw [← Fd.onTimeout_eq_failAll]
+  unfold processActionF processActionBody
+  simp only [hna, Bool.false_eq_true, ↓reduceIte, hacts, stamp_of_stamped _ _ _ hts, hts, Option.getD_some]
+  rw [if_pos hdue]
+
+/-- the queue the error branch leaves holds no client action: it is empty, or holds exactly one unstamped login action -/
+theorem failAll_queue (rest : List Action) (c : CS) (a : Action) (o : Oracle) (out : List Out) (tmo : Option Time)
+    (hna : (failAll rest c a o out tmo).1.aborted = false) :
+    (failAll rest c a o out tmo).1.dev.acts = [] ∨
+    ((failAll rest c a o out tmo).1.dev.acts = [loginAction c.dev] ∧ (failAll rest c a o out tmo).1.dev.conn = 2 ∧
+      (failAll rest c a o out tmo).1.dev.loggedIn = false) := by
+  unfold failAll at hna ⊢
+  dsimp only at hna ⊢
+  split
+  · rename_i hc2
+    have hc2' : c.dev.conn = 2 := by simpa using hc2
+    simp only [hc2, ↓reduceIte] at hna
+    exact reconnectDev_queue { c with dev := { c.dev with acts := [] } } tmo rfl (by simp [hc2']) hna
+  · exact Or.inl rfl
+
+/-- a pass in which `poll` reports nothing for the device (it was woken by the timer, or by somebody else) and the device
+    is not NOT_CONNECTED: before `_process_action` only `_enqueue_ping` may have appended a ping behind the queue -/
+theorem postPollPre_quiet (d : Dev) (env : Env) (hfl : (if d.fd.isSome then env.revents else 0) = 0) (hc : d.conn ≠ 0) :
+    (postPollReady d env).1.aborted = false ∧
+    ∃ l, (∀ x ∈ l, x.clientId = 0) ∧ (postPollPre d env).1.dev.acts = d.acts ++ l ∧ (postPollPre d env).1.dev.conn = d.conn ∧
+      (postPollPre d env).1.dev.timeout = d.timeout ∧ (postPollPre d env).1.dev.loggedIn = d.loggedIn ∧
+      (postPollPre d env).1.env = env ∧ (postPollPre d env).1.aborted = false := by
+  have h1 : postPollReady d env = ({ dev := d, env := env, sys := [] }, false) := by
+    unfold postPollReady; simp [hfl]
+  have h2 : postPollReconnect (postPollReady d env) = ({ dev := d, env := env, sys := [] }, none) := by
+    rw [h1]; unfold postPollReconnect; simp [hc]
+  refine ⟨by rw [h1], ?_⟩
+  unfold postPollPre
+  rw [h2]
+  unfold postPollPing appendPing
+  split
+  · split
+    · split
+      · exact ⟨[pingAction d], by simp [pingAction, loginAction], rfl, rfl, rfl, rfl, rfl, rfl⟩
+      · exact ⟨[], by simp, by simp, rfl, rfl, rfl, rfl, rfl⟩
+    · exact ⟨[pingAction d], by simp [pingAction, loginAction], rfl, rfl, rfl, rfl, rfl, rfl⟩
+  · exact ⟨[], by simp, by simp, rfl, rfl, rfl, rfl, rfl⟩
+
+theorem qcount_append (cid : Nat) (l m : List Action) : qcount cid (l ++ m) = qcount cid l + qcount cid m := by
+  simp [qcount, List.countP_append]
+
+theorem qcount_zero_of (cid : Nat) (hc : cid ≠ 0) (l : List Action) (h : ∀ x ∈ l, x.clientId = 0) : qcount cid l = 0 := by
+  unfold qcount
+  rw [List.countP_eq_zero]
+  intro x hx
+  have := h x hx
+  simp [this]; omega
+
+theorem foldl_add_ge {α : Type} (g : α → Nat) (l : List α) (init : Nat) : init ≤ l.foldl (fun n a => n + g a) init := by
+  induction l generalizing init with
+  | nil => exact Nat.le_refl _
+  | cons x r ih => exact Nat.le_trans (Nat.le_add_right _ _) (ih _)
+
+theorem passFuel_pos (d : Dev) : ∃ n, passFuel d = n + 1 := by
+  have : 2 ≤ passFuel d := foldl_add_ge _ _ _
+  exact ⟨passFuel d - 1, by omega⟩
+
+theorem fcount_timeoutTele (cid : Nat) (d : Dev) (a : Action) : fcount cid (Fd.timeoutTele d a) = 0 := by
+  unfold Fd.timeoutTele
+  split
+  · split
+    · rfl
+    · rw [Fd.teleMem_eq]; rfl
+  · rfl
+
+/-- tenure, whole pass: the device is not NOT_CONNECTED, `poll` reports nothing for it, and the deadline of the head of
+    its queue has passed: the pass fails the whole queue — every client action in it is reported exactly once, and what
+    is left in the queue is no client's (nothing, or the login action of a reconnect) -/
+theorem postPoll_overdue (d : Dev) (env : Env) (o : Oracle) (a0 : Action) (rest : List Action) (ts : Time)
+    (hfl : (if d.fd.isSome then env.revents else 0) = 0) (hc : d.conn ≠ 0)
+    (hacts : d.acts = a0 :: rest) (hts : a0.timeStamp = some ts) (hdue : env.now ≥ ts + d.timeout) :
+    (∀ cid, cid ≠ 0 → fcount cid (postPoll d env o).2.2.1 = qcount cid d.acts ∧
+        qcount cid (postPoll d env o).1.dev.acts = 0) ∧
+    ((postPoll d env o).1.aborted = false →
+      (postPoll d env o).1.dev.acts = [] ∨ ∃ l, (postPoll d env o).1.dev.acts = [l] ∧ l.com = 0 ∧ l.clientId = 0 ∧
+        l.timeStamp = none) := by
+  obtain ⟨hr, l, hl, hq, hconn, hto, _, henv, hab⟩ := postPollPre_quiet d env hfl hc
+  rw [Login2.postPoll_eq]
+  unfold Login2.postPoll'
+  simp only [hr, Bool.false_eq_true, ↓reduceIte]
+  unfold processAction
+  obtain ⟨n, hn⟩ := passFuel_pos (postPollPre d env).1.dev
+  rw [hn]
+  have hq' : (postPollPre d env).1.dev.acts = a0 :: (rest ++ l) := by rw [hq, hacts]; rfl
+  rw [processActionF_overdue n _ o [] _ a0 (rest ++ l) ts hab hq' hts (by rw [henv, hto]; exact hdue)]
+  refine ⟨fun cid hcid => ?_, fun hna => ?_⟩
+  · have h1 := failAll_count (rest ++ l) (postPollPre d env).1 { a0 with errnum := Fd.timeoutErr (postPollPre d env).1.dev } o
+      ([] ++ Fd.timeoutTele (postPollPre d env).1.dev a0) (postPollPre d env).2 cid hcid
+    have h2 := failAll_queue_empty (rest ++ l) (postPollPre d env).1 { a0 with errnum := Fd.timeoutErr (postPollPre d env).1.dev } o
+      ([] ++ Fd.timeoutTele (postPollPre d env).1.dev a0) (postPollPre d env).2 cid hcid
+    refine ⟨?_, h2⟩
+    rw [h2] at h1
+    rw [fcount_append, fcount_timeoutTele] at h1
+    have h3 : qcount cid ({ a0 with errnum := Fd.timeoutErr (postPollPre d env).1.dev } :: (rest ++ l)) = qcount cid d.acts := by
+      rw [hacts, qcount_cons, qcount_cons, qcount_append, qcount_zero_of cid hcid l hl]; simp
+    rw [h3] at h1
+    simpa using h1
+  · rcases failAll_queue _ _ _ _ _ _ hna with h | ⟨h, _, _⟩
+    · exact Or.inl h
+    · exact Or.inr ⟨_, h, rfl, rfl, rfl⟩
+
+/-! ## 9. the daemon hands `poll` the minimum of the devices' registrations -/
+
+section daemon
+open Pm.Daemon
+
+/-- `daemonPass` (the body of `_select_loop`): whatever time-out a device registers in its turn of `dev_post_poll`
+    (`stepOut … .2.2` is the fourth component of that device's `postPoll`), the time-out the daemon keeps for the next
+    `poll` is set and not later -/
+theorem daemonPass_tmo_min (w : W) (p : PassIn) (hex : (cliPostPoll w p.acc p.envs).exited = false)
+    (i : Nat) (nd : Bytes × Dev) (t : Nat)
+    (hi : (cliPostPoll w p.acc p.envs).devs[i]? = some nd)
+    (hd : (accAt p (acc0 (cliPostPoll w p.acc p.envs)) (cliPostPoll w p.acc p.envs).devs i).dead = false)
+    (ht : (stepOut p (accAt p (acc0 (cliPostPoll w p.acc p.envs)) (cliPostPoll w p.acc p.envs).devs i) nd).2.2 = some t) :
+    ∃ t', (daemonPass w p).1.tmo = some t' ∧ t' ≤ t := by
+  rw [daemonPass_fst]
+  simp only [hex, Bool.false_eq_true, ↓reduceIte]
+  exact foldl_tmo_le p _ _ i nd t hi hd ht
+
+/-- what `stepOut` is: the device's own `dev_post_poll` share, run on the shared argument store -/
+theorem stepOut_eq (p : PassIn) (a : DevAcc) (nd : Bytes × Dev) :
+    (stepOut p a nd).2.2 = (postPoll { nd.2 with args := a.w.store } (devEnv p a.w nd) a.oracle).2.2.2 := rfl
+
+end daemon
+
+/-! ## 9b. every registered time-out is positive
+
+In C a `struct timeval` of zero means "no time-out registered" (`_update_timeout` tests `timerisset`, `_select_loop` passes
+`NULL` to `poll`); the mirror uses `none`.  The two readings agree because no zero is ever registered. -/
+
+def WakeOK (d : Dev) : Prop := ∀ w, d.wake = some w → 0 < w
+
+theorem stmtExpect_wake (d a o pat) (h : WakeOK d) : WakeOK (stmtExpect d a o pat).dev := by
+  unfold WakeOK at *; unfold stmtExpect; grind
+theorem stmtSend_wake (d a o e fmt) (h : WakeOK d) : WakeOK (stmtSend d a o e fmt).dev := by
+  unfold WakeOK at *; unfold stmtSend; grind
+theorem stmtDelay_wake (d a o e now us) (h : WakeOK d) : WakeOK (stmtDelay d a o e now us).dev := by
+  unfold WakeOK at *; unfold stmtDelay Time at *; grind
+theorem stmtSetplugstate_wake (d a o e l p s i) (h : WakeOK d) : WakeOK (stmtSetplugstate d a o e l p s i).dev := by
+  unfold WakeOK at *; unfold stmtSetplugstate; grind [setArgs]
+theorem stmtSetresult_wake (d a o p s i) (h : WakeOK d) : WakeOK (stmtSetresult d a o p s i).dev := by
+  unfold WakeOK at *; unfold stmtSetresult; grind [setArgs]
+theorem stmtForeach_wake (d a o e b n) (h : WakeOK d) : WakeOK (stmtForeach d a o e b n).dev := by
+  unfold WakeOK at *; unfold stmtForeach; grind
+theorem stmtIf_wake (d a o e b n) (h : WakeOK d) : WakeOK (stmtIf d a o e b n).dev := by
+  unfold WakeOK at *; unfold stmtIf; grind
+
+theorem processStmt_wake (d : Dev) (a : Action) (o : Oracle) (now : Time) (h : WakeOK d) :
+    WakeOK (processStmt d a o now).dev := by
+  unfold processStmt
+  dsimp only
+  split
+  · exact h
+  all_goals first
+    | exact stmtExpect_wake _ _ _ _ h
+    | exact stmtSend_wake _ _ _ _ _ h
+    | exact stmtDelay_wake _ _ _ _ _ _ h
+    | exact stmtSetplugstate_wake _ _ _ _ _ _ _ _ h
+    | exact stmtSetresult_wake _ _ _ _ _ _ h
+    | exact stmtForeach_wake _ _ _ _ _ _ h
+    | exact stmtIf_wake _ _ _ _ _ _ h
+
+theorem innerLoop_wake (now : Time) (fuel : Nat) (d : Dev) (a : Action) (o : Oracle) (acc : List Out) (h : WakeOK d) :
+    WakeOK (innerLoop now fuel d a o acc).dev := by
+  induction fuel generalizing d a o acc with
+  | zero => simpa [innerLoop] using processStmt_wake d a o now h
+  | succ n ih =>
+    unfold innerLoop; dsimp only
+    have hp := processStmt_wake d a o now h
+    split
+    · exact ih _ _ _ _ hp
+    · simpa using hp
+
+/-- a registered time-out is never zero -/
+def Pos (tmo : Option Time) : Prop := ∀ t, tmo = some t → 0 < t
+
+theorem pos_upd (tmo : Option Time) (left : Time) (h : Pos tmo) (hl : 0 < left) : Pos (upd tmo left) := by
+  unfold upd Pos at *
+  cases tmo with
+  | none => intro t ht; cases ht; exact hl
+  | some x =>
+    intro t ht; cases ht
+    have := h x rfl
+    exact Nat.lt_min.mpr ⟨this, hl⟩
+
+theorem reconnectDev_pos (c : CS) (tmo : Option Time) (h : Pos tmo) : Pos (reconnectDev c tmo).2 := by
+  unfold reconnectDev
+  dsimp only
+  generalize (if (c.dev.conn != 0) = true then disconnectDev c else c) = c1
+  rcases timeToReconnect_spec c1.dev c1.env.now with ⟨h1, _⟩ | ⟨h1, _, hlt⟩
+  · rw [h1]; exact h
+  · rw [h1]; exact pos_upd _ _ h (by unfold Time at *; omega)
+
+theorem failAll_pos (rest : List Action) (c : CS) (a : Action) (o : Oracle) (out : List Out) (tmo : Option Time)
+    (h : Pos tmo) : Pos (failAll rest c a o out tmo).2.2.2 := by
+  unfold failAll
+  dsimp only
+  split
+  · exact reconnectDev_pos _ _ h
+  · exact h
+
+theorem onRunStep_pos (rest : List Action) (c : CS) (a : Action) (o : Oracle) (out : List Out) (tmo : Option Time)
+    (left : Time) (h : Pos tmo) (hl : 0 < left) : Pos (onRunStep rest c a o out tmo left).1.2.2.2 := by
+  unfold onRunStep
+  dsimp only
+  have hW := innerLoop_wake c.env.now (loopBound a) { c.dev with wake := none } a o []
+    (by intro w hw; cases hw)
+  generalize innerLoop c.env.now (loopBound a) { c.dev with wake := none } a o [] = r at *
+  split
+  · exact h
+  · split
+    · apply pos_upd _ _ _ hl
+      split
+      · rename_i w hw; exact pos_upd _ _ h (hW w hw)
+      · exact h
+    · split
+      · split <;> exact h
+      · exact failAll_pos _ _ _ _ _ _ h
+
+theorem bodyStep_pos (c : CS) (o : Oracle) (out : List Out) (tmo : Option Time) (h : Pos tmo) :
+    Pos (bodyStep c o out tmo).1.2.2.2 := by
+  unfold bodyStep
+  split
+  · exact h
+  · split
+    · exact h
+    · dsimp only
+      split
+      · rw [Fd.onTimeout_eq_failAll]; exact failAll_pos _ _ _ _ _ _ h
+      · rename_i hlt
+        split
+        · exact pos_upd _ _ h (by unfold Time at *; omega)
+        · exact onRunStep_pos _ _ _ _ _ _ _ h (by unfold Time at *; omega)
+
+theorem processActionF_pos (fuel : Nat) (c : CS) (o : Oracle) (out : List Out) (tmo : Option Time) (h : Pos tmo) :
+    Pos (processActionF fuel c o out tmo).2.2.2 :=
+  processActionF_ind (Pre := fun _ t => Pos t) (Post := fun r => Pos r.2.2.2)
+    (fun _ _ _ _ h => h)
+    (fun c o out tmo h _ => bodyStep_pos c o out tmo h)
+    (fun c o out tmo h _ => bodyStep_pos c o out tmo h) fuel c o out tmo h
+
+/-- every time-out `dev_post_poll` registers is positive -/
+theorem postPoll_pos (d : Dev) (env : Env) (o : Oracle) : Pos (postPoll d env o).2.2.2 := by
+  rw [Login2.postPoll_eq]
+  unfold Login2.postPoll'
+  split
+  · intro t ht; cases ht
+  · apply processActionF_pos
+    unfold postPollPre
+    have h1 : Pos (postPollReconnect (postPollReady d env)).2 := by
+      unfold postPollReconnect
+      split
+      · exact reconnectDev_pos _ _ (by intro t ht; cases ht)
+      · intro t ht; cases ht
+    generalize postPollReconnect (postPollReady d env) = r at *
+    unfold postPollPing
+    split
+    · split
+      · split
+        · exact h1
+        · exact pos_upd _ _ h1 (by unfold Time at *; omega)
+      · exact h1
+    · exact h1
+
+/-! ## 11. C12: i/o error, restart after a connect, what a time-out reports, the retry counter -/
+
+/-- the queue `_disconnect` leaves: a login action at the head is dropped, everything else is kept in order -/
+def dropLogin : List Action → List Action
+  | a :: r => if a.com == 0 then r else a :: r
+  | [] => []
+
+theorem disconnectDev_sys (c : CS) :
+    (disconnectDev c).sys = c.sys ++ Fd.closeOf c.dev.fd ++ Fd.reapOf c.dev.isPipe c.dev.cpid := by
+  rw [Fd.disconnectDev_eq]
+  obtain ⟨a1, _, a3, a4⟩ := Fd.dcClose_shape c
+  obtain ⟨b1, _, _, _⟩ := Fd.dcReap_shape (Fd.dcClose c)
+  show (Fd.dcReap (Fd.dcClose c)).sys = _
+  rw [b1, a1, a3, a4]
+
+/-- everything `_disconnect` does -/
+theorem disconnectDev_spec (c : CS) :
+    (disconnectDev c).sys = c.sys ++ Fd.closeOf c.dev.fd ++ Fd.reapOf c.dev.isPipe c.dev.cpid ∧
+    (disconnectDev c).dev.fd = none ∧ (disconnectDev c).dev.cpid = (if c.dev.isPipe then none else c.dev.cpid) ∧
+    (disconnectDev c).dev.toBuf = [] ∧ (disconnectDev c).dev.fromBuf = [] ∧ (disconnectDev c).dev.conn = 0 ∧
+    (disconnectDev c).dev.loggedIn = false ∧ (disconnectDev c).dev.acts = dropLogin c.dev.acts ∧
+    (disconnectDev c).aborted = c.aborted ∧ (disconnectDev c).env = c.env := by
+  refine ⟨disconnectDev_sys c, (Fd.disconnectDev_link c).1, ?_, rfl, rfl, rfl, rfl, ?_, ?_, ?_⟩
+  · rw [Fd.disconnectDev_eq]
+    show (Fd.dcReap (Fd.dcClose c)).dev.cpid = _
+    rw [(Fd.dcReap_shape _).2.2.1, (Fd.dcClose_shape c).2.2.1, (Fd.dcClose_shape c).2.2.2]
+  · rw [Login2.disconnectDev_acts]; cases c.dev.acts <;> rfl
+  · unfold disconnectDev; grind
+  · unfold disconnectDev; grind
+
+/-- `_reconnect` of a device that is not NOT_CONNECTED: `_disconnect`, then a connect attempt if the back-off allows
+    it, else the remaining back-off is registered -/
+theorem reconnectDev_connected (c : CS) (tmo : Option Time) (h : c.dev.conn ≠ 0) :
+    ((c.dev.retryCount = 0 ∨ backoffEnd c.dev ≤ c.env.now) ∧
+        reconnectDev c tmo = (connectDev (disconnectDev c), tmo)) ∨
+    (0 < c.dev.retryCount ∧ c.env.now < backoffEnd c.dev ∧
+        reconnectDev c tmo = (disconnectDev c, upd tmo (backoffEnd c.dev - c.env.now))) := by
+  have hne : (c.dev.conn != 0) = true := by simpa using h
+  have hr := disconnectDev_retry c
+  have hb : backoffEnd (disconnectDev c).dev = backoffEnd c.dev := by unfold backoffEnd; rw [hr.retryCount, hr.lastRetry]
+  unfold reconnectDev
+  simp only [hne, ↓reduceIte]
+  rcases timeToReconnect_spec (disconnectDev c).dev (disconnectDev c).env.now with ⟨h1, h2⟩ | ⟨h1, h2, h3⟩
+  · rw [h1]
+    rw [hb, hr.retryCount, hr.now] at h2
+    exact Or.inl ⟨h2, rfl⟩
+  · rw [h1]
+    rw [hb, hr.now] at h3
+    rw [hr.retryCount] at h2
+    rw [hb, hr.now]
+    exact Or.inr ⟨h2, h3, rfl⟩
+
+/-- `_handle_ready_device` on a CONNECTED device holding a descriptor, spelled out: when it reports an i/o error -/
+theorem handleReady_connected_ioerr (c : CS) (h2 : c.dev.conn = 2) (hfd : c.dev.fd.isSome = true) :
+    (handleReady c).2 = true ↔
+      (c.env.revents &&& 4 != 0 || c.env.revents &&& 8 != 0 || c.env.revents &&& 16 != 0) = true ∨
+      ((c.env.revents &&& 2 != 0) = true ∧ (c.dev.toBuf.isEmpty = true ∨ c.env.writeOk = false)) ∨
+      ((c.env.revents &&& 1 != 0) = true ∧ (c.env.read = some none ∨ c.env.read = some (some []))) := by
+  have hn : c.dev.fd.isNone = false := by cases h : c.dev.fd <;> simp_all
+  rw [Login2.handleReady_eq]
+  unfold Login2.handleReady' readyTail readyWrite readyRead
+  simp only [h2, hn]
+  cases hH : (c.env.revents &&& 4 != 0 || c.env.revents &&& 8 != 0 || c.env.revents &&& 16 != 0)
+  · cases hO : (c.env.revents &&& 2 != 0) <;> cases hI : (c.env.revents &&& 1 != 0) <;>
+      cases hE : c.dev.toBuf.isEmpty <;> cases hW : c.env.writeOk <;>
+      (try rcases hR : c.env.read with _ | _ | _ | _) <;> simp_all
+  · simp
+
+/-- … and what it leaves of the device then: the queue, the connection state, the descriptor, the child, the login flag
+    are untouched, nothing is aborted -/
+theorem handleReady_connected_frame (c : CS) (h2 : c.dev.conn = 2) (hfd : c.dev.fd.isSome = true)
+    (he : (handleReady c).2 = true) :
+    (handleReady c).1.dev.acts = c.dev.acts ∧ (handleReady c).1.dev.conn = 2 ∧ (handleReady c).1.dev.fd = c.dev.fd ∧
+    (handleReady c).1.dev.cpid = c.dev.cpid ∧ (handleReady c).1.dev.isPipe = c.dev.isPipe ∧
+    (handleReady c).1.dev.loggedIn = c.dev.loggedIn ∧ (handleReady c).1.aborted = c.aborted := by
+  have hn : c.dev.fd.isNone = false := by cases h : c.dev.fd <;> simp_all
+  rw [Login2.handleReady_eq] at he ⊢
+  unfold Login2.handleReady' readyTail readyWrite readyRead at he ⊢
+  simp only [h2, hn] at he ⊢
+  cases hH : (c.env.revents &&& 4 != 0 || c.env.revents &&& 8 != 0 || c.env.revents &&& 16 != 0)
+  · cases hO : (c.env.revents &&& 2 != 0) <;> cases hI : (c.env.revents &&& 1 != 0) <;>
+      cases hE : c.dev.toBuf.isEmpty <;> cases hW : c.env.writeOk <;>
+      (try rcases hR : c.env.read with _ | _ | _ | _) <;> simp_all
+  · simp_all
+
+/-! ### restart after a connect -/
+
+theorem enqueueLogin_acts (d : Dev) :
+    (enqueueLogin d).acts = loginAction d :: (match d.acts with | a :: r => rewind a :: r | [] => []) := rfl
+
+theorem rewind_keeps (a : Action) : (rewind a).timeStamp = a.timeStamp ∧ (rewind a).clientId = a.clientId ∧
+    (rewind a).arglist = a.arglist ∧ (rewind a).telemetry = a.telemetry := by
+  unfold rewind; split <;> exact ⟨rfl, rfl, rfl, rfl⟩
+
+theorem readyConnect_acts (c : CS) (h2 : (readyConnect c).1.dev.conn = 2) :
+    (readyConnect c).1.dev.acts = (enqueueLogin c.dev).acts := by
+  unfold readyConnect at h2 ⊢
+  have ha := finishConnectOne_acts c
+  have hs := (finishConnectOne_retry c).scripts
+  generalize finishConnectOne c = r at *
+  obtain ⟨c1, ok⟩ := r
+  simp only at ha hs h2 ⊢
+  have key : ∀ c2 : CS, c2.dev.acts = c.dev.acts → c2.dev.scripts = c.dev.scripts → (readyConnectTail c2).1.dev.conn = 2 →
+      (readyConnectTail c2).1.dev.acts = (enqueueLogin c.dev).acts := by
+    intro c2 ha2 hs2 hc2
+    unfold readyConnectTail at hc2 ⊢
+    split at hc2
+    · rename_i h0; simp at h0; simp [h0] at hc2
+    · rename_i h0
+      split at hc2
+      · rename_i h22
+        simp only [h0, h22, Bool.false_eq_true, ↓reduceIte]
+        show (enqueueLogin c2.dev).acts = _
+        unfold enqueueLogin loginAction
+        simp only [ha2, hs2]
+      · rename_i h22; simp at h22; exact absurd hc2 h22
+  cases ok
+  · simp only [Bool.false_eq_true, ↓reduceIte] at h2 ⊢
+    have h0 : (readyConnectFail c1).dev.conn = 0 := by unfold readyConnectFail; split <;> rfl
+    exfalso
+    unfold readyConnectTail at h2
+    simp [h0] at h2
+  · simp only [↓reduceIte] at h2 ⊢
+    exact key c1 ha hs h2
+
+/-- the other place where a connect completes: `_handle_ready_device` on a CONNECTING device (`tcp_finish_connect`).
+    If the device is CONNECTED afterwards the queue is the one `_enqueue_login` makes of the queue before -/
+theorem handleReady_connects (c : CS) (h1 : c.dev.conn = 1) (h2 : (handleReady c).1.dev.conn = 2) :
+    (handleReady c).1.dev.acts = (enqueueLogin c.dev).acts := by
+  rw [Login2.handleReady_eq] at h2 ⊢
+  unfold Login2.handleReady' at h2 ⊢
+  have h10 : (c.dev.conn == 0) = false := by simp [h1]
+  have h11 : (c.dev.conn == 1) = true := by simp [h1]
+  simp only [h10, h11, Bool.false_eq_true, ↓reduceIte] at h2 ⊢
+  by_cases hn : c.dev.fd.isNone = true
+  · simp only [hn, ↓reduceIte] at h2; rw [h1] at h2; cases h2
+  · simp only [hn, Bool.false_eq_true, ↓reduceIte] at h2 ⊢
+    by_cases hh : (c.env.revents &&& 4 != 0 || c.env.revents &&& 8 != 0 || c.env.revents &&& 16 != 0) = true
+    · simp only [hh, ↓reduceIte] at h2; rw [h1] at h2; cases h2
+    · simp only [hh, Bool.false_eq_true, ↓reduceIte] at h2 ⊢
+      by_cases hO : (c.env.revents &&& 2 != 0) = true
+      · simp only [hO, ↓reduceIte] at h2 ⊢
+        have h3 := (Login2.readyConnect_toBuf c).2
+        have ht : (readyTail c.env.revents (readyConnect c)).1 = (readyConnect c).1 := by
+          unfold readyTail
+          split
+          · rfl
+          · rfl
+        rw [ht] at h2 ⊢
+        exact readyConnect_acts c h2
+      · simp only [hO, Bool.false_eq_true, ↓reduceIte] at h2 ⊢
+        exfalso
+        unfold readyTail at h2
+        simp only [Bool.false_eq_true, ↓reduceIte] at h2
+        split at h2
+        · rw [(Login2.readyRead_sameQueue c).conn, h1] at h2; cases h2
+        · rw [h1] at h2; cases h2
+
+/-! ### what the time-out branch reports -/
+
+/-- the completion reported for the failing head -/
+def headFin (a : Action) (e : ActErr) : List Out := if a.clientId != 0 then [Out.finish a.clientId e] else []
+/-- the completions reported for everything queued behind it: aborted after an expect failure, the same error otherwise -/
+def restFin (rest : List Action) (e : ActErr) : List Out :=
+  (rest.filter (·.clientId != 0)).map fun b => Out.finish b.clientId (if e == .expfail then .abort else e)
+
+theorem failAll_out (rest : List Action) (c : CS) (a : Action) (o : Oracle) (out : List Out) (tmo : Option Time) :
+    (failAll rest c a o out tmo).2.2.1 = out ++ (headFin a a.errnum ++ restFin rest a.errnum) ∧
+    (failAll rest c a o out tmo).2.1 = o := by
+  unfold failAll headFin restFin
+  dsimp only
+  split <;> exact ⟨rfl, rfl⟩
+
+theorem onTimeout_out (rest : List Action) (c : CS) (a : Action) (o : Oracle) (out : List Out) (tmo : Option Time) :
+    (onTimeout rest c a o out tmo).2.2.1 =
+      out ++ Fd.timeoutTele c.dev a ++ (headFin a (Fd.timeoutErr c.dev) ++ restFin rest (Fd.timeoutErr c.dev)) := by
+  rw [Fd.onTimeout_eq_failAll, (failAll_out _ _ _ _ _ _).1]
+  rfl
+
+theorem timeoutErr_cases (d : Dev) :
+    (d.conn ≠ 2 → Fd.timeoutErr d = .connectTimeout) ∧
+    (d.conn = 2 → d.loggedIn = false → Fd.timeoutErr d = .loginTimeout) ∧
+    (d.conn = 2 → d.loggedIn = true → Fd.timeoutErr d = .expfail) := by
+  unfold Fd.timeoutErr
+  refine ⟨fun h => by simp [h], fun h1 h2 => by simp [h1, h2], fun h1 h2 => by simp [h1, h2]⟩
+
+/-! ### the retry counter is never reset by a pass -/
+
+def RetryLe (c c' : CS) : Prop := c.dev.retryCount ≤ c'.dev.retryCount
+
+theorem reconnectDev_retryLe (c : CS) (tmo : Option Time) : RetryLe c (reconnectDev c tmo).1 := by
+  unfold reconnectDev RetryLe
+  dsimp only
+  have h0 : (if (c.dev.conn != 0) = true then disconnectDev c else c).dev.conn = 0 := by
+    split
+    · exact disconnectDev_conn c
+    · rename_i h; simpa using h
+  have h1 : (if (c.dev.conn != 0) = true then disconnectDev c else c).dev.retryCount = c.dev.retryCount := by
+    split
+    · exact (disconnectDev_retry c).retryCount
+    · rfl
+  generalize (if (c.dev.conn != 0) = true then disconnectDev c else c) = c1 at *
+  split
+  · rw [(connectDev_cases c1 h0).2.2.1]; omega
+  · exact Nat.le_of_eq h1.symm
+  · exact Nat.le_of_eq h1.symm
+
+theorem failAll_retryLe (rest : List Action) (c : CS) (a : Action) (o : Oracle) (out : List Out) (tmo : Option Time) :
+    RetryLe c (failAll rest c a o out tmo).1 := by
+  unfold failAll
+  dsimp only
+  split
+  · exact reconnectDev_retryLe { c with dev := { c.dev with acts := [] } } tmo
+  · exact Nat.le_refl _
+
+theorem onRunStep_retryLe (rest : List Action) (c : CS) (a : Action) (o : Oracle) (out : List Out) (tmo : Option Time)
+    (left : Time) : RetryLe c (onRunStep rest c a o out tmo left).1.1 := by
+  unfold onRunStep
+  dsimp only
+  have hT := (innerLoop_timer c.env.now (loopBound a) { c.dev with wake := none } a o []).1.retryCount
+  generalize innerLoop c.env.now (loopBound a) { c.dev with wake := none } a o [] = r at *
+  simp only at hT
+  have hle : c.dev.retryCount ≤ r.dev.retryCount := by omega
+  split
+  · exact hle
+  · split
+    · exact hle
+    · split
+      · split <;> exact hle
+      · exact Nat.le_trans hle (failAll_retryLe rest { c with dev := r.dev } _ _ _ _)
+
+theorem bodyStep_retryLe (c : CS) (o : Oracle) (out : List Out) (tmo : Option Time) : RetryLe c (bodyStep c o out tmo).1.1 := by
+  unfold bodyStep
+  split
+  · exact Nat.le_refl _
+  · split
+    · exact Nat.le_refl _
+    · dsimp only
+      split
+      · rw [Fd.onTimeout_eq_failAll]; exact failAll_retryLe _ _ _ _ _ _
+      · split
+        · exact Nat.le_refl _
+        · exact onRunStep_retryLe _ _ _ _ _ _ _
+
+theorem processActionF_retryLe (fuel : Nat) (c : CS) (o : Oracle) (out : List Out) (tmo : Option Time) :
+    RetryLe c (processActionF fuel c o out tmo).1 :=
+  processActionF_ind (Pre := fun c' _ => RetryLe c c') (Post := fun r => RetryLe c r.1)
+    (fun _ _ _ _ h => h)
+    (fun c' o out tmo h _ => Nat.le_trans h (bodyStep_retryLe c' o out tmo))
+    (fun c' o out tmo h _ => Nat.le_trans h (bodyStep_retryLe c' o out tmo)) fuel c o out tmo (Nat.le_refl _)
+
+/-- `dev_post_poll` never lowers `retry_count`: only `dev_enqueue_actions` (a client request on a device that is not
+    CONNECTED) and `dev_create` set it to 0 -/
+theorem postPoll_retryLe (d : Dev) (env : Env) (o : Oracle) : d.retryCount ≤ (postPoll d env o).1.dev.retryCount := by
+  rw [Login2.postPoll_eq]
+  unfold Login2.postPoll'
+  have h1 : d.retryCount ≤ (postPollReady d env).1.dev.retryCount := by
+    unfold postPollReady
+    generalize (if d.fd.isSome then env.revents else 0) = fl
+    split
+    · exact Nat.le_of_eq (handleReady_retry { dev := d, env := { env with revents := fl }, sys := [] }).retryCount.symm
+    · exact Nat.le_refl _
+  split
+  · exact h1
+  · have h2 : (postPollReady d env).1.dev.retryCount ≤ (postPollReconnect (postPollReady d env)).1.dev.retryCount := by
+      unfold postPollReconnect
+      split
+      · exact reconnectDev_retryLe _ _
+      · exact Nat.le_refl _
+    have h3 : (postPollPing env.now (postPollReconnect (postPollReady d env))).1.dev.retryCount =
+        (postPollReconnect (postPollReady d env)).1.dev.retryCount := by
+      unfold postPollPing appendPing
+      split
+      · split
+        · split <;> rfl
+        · rfl
+      · rfl
+    have h4 := processActionF_retryLe (passFuel (postPollPre d env).1.dev) (postPollPre d env).1 o [] (postPollPre d env).2
+    unfold processAction
+    unfold RetryLe at h4
+    unfold postPollPre at h4 ⊢
+    omega
+
+theorem enqueue_retryCount (d : Dev) (com : Nat) (targets : List Bytes) (cid : Nat) (tele : Bool) (al : Nat) :
+    (Pm.Daemon.enqueue d com targets cid tele al).1.retryCount = d.retryCount ∧
+    (Pm.Daemon.enqueue d com targets cid tele al).1.conn = d.conn := by
+  unfold Pm.Daemon.enqueue
+  dsimp only
+  split <;> exact ⟨rfl, rfl⟩
+
+/-- the one place where `retry_count` is reset (`dev_enqueue_actions`, here the per-device step of `install`): exactly
+    when the request put at least one action on a device that is not CONNECTED -/
+theorem installStep_retryCount (com : Nat) (bnames : List Bytes) (cid : Nat) (tele : Bool) (al : Nat)
+    (acc : List (Bytes × Dev) × Nat) (nd : Bytes × Dev) :
+    ∃ d', (installStep com bnames cid tele al acc nd).1 = acc.1 ++ [(nd.1, d')] ∧
+      d'.retryCount = (if (Pm.Daemon.enqueue nd.2 com bnames cid tele al).2 > 0 ∧ nd.2.conn ≠ 2 then 0 else nd.2.retryCount) := by
+  unfold installStep
+  have he := enqueue_retryCount nd.2 com bnames cid tele al
+  generalize Pm.Daemon.enqueue nd.2 com bnames cid tele al = e at *
+  obtain ⟨d1, n⟩ := e
+  simp only at he ⊢
+  refine ⟨_, rfl, ?_⟩
+  by_cases h : n > 0 ∧ nd.2.conn ≠ 2
+  · have : (decide (n > 0) && d1.conn != 2) = true := by simp [he.2, h.1, h.2]
+    simp only [this, ↓reduceIte, if_pos h]
+  · have : (decide (n > 0) && d1.conn != 2) = false := by
+      rw [he.2]
+      cases hn : decide (n > 0) <;> simp_all
+    simp only [this, Bool.false_eq_true, ↓reduceIte, if_neg h, he.1]
+
+/-! ### recovery: a fresh client action on a healthy device -/
+
+/-- the device is CONNECTED, `poll` reports nothing for it, its queue holds exactly the unstamped action `a`, its
+    time-out is positive: the first iteration of `_process_action` in this pass runs the statement interpreter on `a`
+    stamped with the time of the pass — nothing else of the device state enters the choice -/
+theorem recover_speaker (d : Dev) (env : Env) (a : Action) (h2 : d.conn = 2) (hq : d.acts = [a])
+    (hts : a.timeStamp = none) (hto : 0 < d.timeout) (hfl : (if d.fd.isSome then env.revents else 0) = 0) :
+    (postPollReady d env).1.aborted = false ∧
+    speaker (postPollPre d env).1 = some { a with timeStamp := some env.now } := by
+  obtain ⟨hr, l, _, hacts, hconn, hto', _, henv, hab⟩ := postPollPre_quiet d env hfl (by omega)
+  refine ⟨hr, ?_⟩
+  unfold speaker
+  have hst : stamp env.now a = { a with timeStamp := some env.now } := by unfold stamp; simp [hts]
+  simp only [hab, Bool.false_eq_true, ↓reduceIte, hacts, hq, List.cons_append, henv, hst, Option.getD_some, hto', hconn, h2]
+  have : ¬ env.now ≥ env.now + d.timeout := by unfold Time at *; omega
+  simp [this]
+
+/-- … and if the interpreter stalls on it (an `expect` whose answer has not come, a `send` not yet flushed, a `delay`),
+    the pass ends with that action at the head carrying the time stamp of this pass -/
+theorem recover_stalled (d : Dev) (env : Env) (o : Oracle) (a : Action) (h2 : d.conn = 2) (hq : d.acts = [a])
+    (hts : a.timeStamp = none) (hto : 0 < d.timeout) (hfl : (if d.fd.isSome then env.revents else 0) = 0)
+    (hst : (innerLoop env.now (loopBound { a with timeStamp := some env.now }) { (postPollPre d env).1.dev with wake := none }
+        { a with timeStamp := some env.now } o []).finished = false) :
+    ∃ h r, (postPoll d env o).1.dev.acts = h :: r ∧ h.timeStamp = some env.now ∧ h.clientId = a.clientId ∧ h.com = a.com := by
+  obtain ⟨hr, hsp⟩ := recover_speaker d env a h2 hq hts hto hfl
+  obtain ⟨_, l, _, _, _, _, _, henv, _⟩ := postPollPre_quiet d env hfl (by omega)
+  rw [Login2.postPoll_eq]
+  unfold Login2.postPoll'
+  simp only [hr, Bool.false_eq_true, ↓reduceIte]
+  unfold processAction
+  obtain ⟨n, hn⟩ := passFuel_pos (postPollPre d env).1.dev
+  rw [hn, processActionF_succ]
+  have hst' : (innerLoop (postPollPre d env).1.env.now (loopBound { a with timeStamp := some env.now })
+      { (postPollPre d env).1.dev with wake := none } { a with timeStamp := some env.now } o []).finished = false := by
+    rw [henv]; exact hst
+  obtain ⟨hb1, hb2⟩ := bodyStep_stalled (postPollPre d env).1 o [] (postPollPre d env).2 _ hsp hst'
+  unfold andThen
+  simp only [hb1, Bool.false_eq_true, ↓reduceIte]
+  refine ⟨_, _, hb2, ?_, ?_, ?_⟩
+  · rw [(innerLoop_timer _ _ _ _ _ _).2]
+  · rw [innerLoop_clientId]
+  · rw [(innerLoop_link _ _ _ _ _ _).2]
+
+/-! ## 12. C20: shutdown (`cli_fini`, `dev_fini` after `_select_loop`) -/
+
+section shutdown
+open Pm.Daemon
+
+/-- the (irrelevant) kernel answers `teardown` runs `_disconnect` with -/
+def tdEnv : Env := { now := 0, revents := 0, sockets := [], connects := [], soerrs := [], read := none, writeOk := true }
+
+/-- the system calls `dev_destroy` issues for one device: those of `_disconnect`'s transport half, for a CONNECTED
+    device only -/
+def tdDev (d : Dev) : List Sys :=
+  if d.conn == 2 then (disconnectDev { dev := d, env := tdEnv, sys := [] }).sys else []
+
+theorem tdDev_eq (d : Dev) : tdDev d = if d.conn == 2 then Fd.closeOf d.fd ++ Fd.reapOf d.isPipe d.cpid else [] := by
+  unfold tdDev
+  split
+  · rw [disconnectDev_sys]; simp
+  · rfl
+
+theorem showSys_nil : showSys [] [] = [] := by simp [showSys]
+
+/-- `teardown`'s strings are the rendering (`showSys`, the function that prints every pass's system calls) of one `close`
+    per client followed by `tdDev` of every device in configuration order -/
+theorem teardown_eq (w : W) :
+    teardown w = (w.clients.map fun c => s!"Y close {c.fd}") ++ w.devs.flatMap fun nd => showSys [] (tdDev nd.2) := by
+  unfold teardown tdDev
+  congr 1
+  apply congrArg (fun f => List.flatMap f w.devs)
+  funext nd
+  split
+  · rfl
+  · exact showSys_nil.symm
+
+/-- the strings of one CONNECTED device: signal and reap the coprocess (if there is one recorded), close the descriptor
+    (`showSys` prints closes last) -/
+theorem showSys_tdDev (d : Dev) (h2 : d.conn = 2) :
+    showSys [] (tdDev d) =
+      (match d.isPipe, d.cpid with | true, some pid => [s!"Y kill {pid} 15", s!"Y waitpid {pid}"] | _, _ => []) ++
+      (match d.fd with | some fd => [s!"Y close {fd}"] | none => []) := by
+  rw [tdDev_eq]
+  simp only [h2, beq_self_eq_true, ↓reduceIte]
+  cases d.fd <;> cases d.isPipe <;> cases d.cpid <;> simp [showSys, Fd.closeOf, Fd.reapOf]
+
+/-- descriptor audit of one device's share: started with the descriptor the device holds, the audit succeeds (the only
+    `close` is for that descriptor) and ends with nothing held if the device was CONNECTED — and with the descriptor
+    still held otherwise -/
+theorem tdDev_fdRun (d : Dev) : Fd.fdRun d.fd.toList (tdDev d) = some (if d.conn == 2 then [] else d.fd.toList) := by
+  rw [tdDev_eq]
+  split
+  · cases d.fd <;> cases d.isPipe <;> cases d.cpid <;> simp [Fd.closeOf, Fd.reapOf, Fd.fdRun, Fd.fdStep]
+  · rfl
+
+/-- child audit of one device's share, under the invariants: no child is left, none is signalled without being reaped -/
+theorem tdDev_kidRun (d : Dev) (hc : Fd.ChildInv d) (hr : Fd.ConnRange d) :
+    Fd.kidRun (d.cpid.toList, []) (tdDev d) = some ([], []) := by
+  rw [tdDev_eq]
+  obtain ⟨c1, c2, c3⟩ := hc
+  unfold Fd.ConnRange at hr
+  split
+  · rename_i h2
+    have h2' : d.conn = 2 := by simpa using h2
+    cases hp : d.isPipe <;> cases hk : d.cpid <;> simp_all [Fd.reapOf] <;>
+      cases d.fd <;> simp [Fd.closeOf, Fd.kidRun, Fd.kidStep]
+  · rename_i h2
+    have h2' : d.conn ≠ 2 := by simpa using h2
+    cases hk : d.cpid with
+    | none => rfl
+    | some pid =>
+      exfalso
+      have := c1 (by simp [hk])
+      have := c3 this.1
+      omega
+
+/-- all descriptors the daemon holds: one per client, one per device that has one -/
+def openFds (w : W) : List Nat := w.clients.map (·.fd) ++ w.devs.flatMap fun nd => nd.2.fd.toList
+/-- the descriptors `teardown` closes -/
+def tdClosed (w : W) : List Nat := w.clients.map (·.fd) ++ w.devs.flatMap fun nd => Fd.closed (tdDev nd.2)
+/-- the descriptors it does not close -/
+def tdLeft (w : W) : List Nat := w.devs.flatMap fun nd => if nd.2.conn == 2 then [] else nd.2.fd.toList
+
+theorem tdDev_closed (d : Dev) : Fd.closed (tdDev d) = if d.conn == 2 then d.fd.toList else [] := by
+  rw [tdDev_eq]
+  split
+  · cases d.fd <;> cases d.isPipe <;> cases d.cpid <;> simp [Fd.closeOf, Fd.reapOf, Fd.closed]
+  · rfl
+
+/-- descriptor ledger of the shutdown, per descriptor number: held = closed + left open -/
+theorem teardown_balance (w : W) (n : Nat) : (openFds w).count n = (tdClosed w).count n + (tdLeft w).count n := by
+  unfold openFds tdClosed tdLeft
+  simp only [List.count_append]
+  have : ∀ l : List (Bytes × Dev), (l.flatMap fun nd => nd.2.fd.toList).count n =
+      (l.flatMap fun nd => Fd.closed (tdDev nd.2)).count n +
+      (l.flatMap fun nd => if nd.2.conn == 2 then [] else nd.2.fd.toList).count n := by
+    intro l
+    induction l with
+    | nil => rfl
+    | cons x r ih =>
+      simp only [List.flatMap_cons, List.count_append, ih, tdDev_closed]
+      split <;> simp <;> omega
+  rw [this, Nat.add_assoc]
+
+/-- with the descriptor invariant on every device, what is left open are the descriptors of the devices that are
+    CONNECTING, and nothing else -/
+theorem tdLeft_connecting (w : W) (h : ∀ nd ∈ w.devs, Fd.FdInv nd.2 ∧ Fd.ConnRange nd.2) :
+    tdLeft w = (w.devs.filter fun nd => nd.2.conn == 1).flatMap fun nd => nd.2.fd.toList := by
+  unfold tdLeft
+  have : ∀ l : List (Bytes × Dev), (∀ nd ∈ l, Fd.FdInv nd.2 ∧ Fd.ConnRange nd.2) →
+      (l.flatMap fun nd => if nd.2.conn == 2 then [] else nd.2.fd.toList) =
+      (l.filter fun nd => nd.2.conn == 1).flatMap fun nd => nd.2.fd.toList := by
+    intro l hl
+    induction l with
+    | nil => rfl
+    | cons x r ih =>
+      have hx := hl x (by simp)
+      have ih' := ih (fun nd hnd => hl nd (by simp [hnd]))
+      simp only [List.flatMap_cons, List.filter_cons, ih']
+      unfold Fd.FdInv Fd.ConnRange at hx
+      by_cases h2 : x.2.conn = 2
+      · simp [h2]
+      · by_cases h1 : x.2.conn = 1
+        · simp [h1]
+        · have h0 : x.2.conn = 0 := by omega
+          simp [h0, hx.1.mpr h0]
+  exact this w.devs h
+
+/-- when all descriptors held are distinct numbers, `teardown` closes every descriptor at most once: exactly once if it
+    is held and not left open, never otherwise -/
+theorem teardown_once (w : W) (hnd : (openFds w).Nodup) (n : Nat) :
+    (tdClosed w).count n = if n ∈ openFds w ∧ n ∉ tdLeft w then 1 else 0 := by
+  have hb := teardown_balance w n
+  have h1 : (openFds w).count n ≤ 1 := List.nodup_iff_count.mp hnd n
+  have h2 : 0 < (openFds w).count n ↔ n ∈ openFds w := List.count_pos_iff
+  have h3 : (tdLeft w).count n = 0 ↔ n ∉ tdLeft w := List.count_eq_zero
+  by_cases hm : n ∈ openFds w
+  · by_cases hl : n ∈ tdLeft w
+    · have : ¬ (tdLeft w).count n = 0 := fun h => (h3.mp h) hl
+      simp only [hm, hl, not_true_eq_false, and_false, ↓reduceIte]
+      have := h2.mpr hm
+      omega
+    · have := h3.mpr hl
+      have := h2.mpr hm
+      simp only [hm, hl, not_false_eq_true, and_self, ↓reduceIte]
+      omega
+  · have : ¬ 0 < (openFds w).count n := fun h => hm (h2.mp h)
+    simp only [hm, false_and, ↓reduceIte]
+    omega
+
+/-- example worlds for `Props/C20`: a client on descriptor 1000; the connected tcp device (descriptor 2000), the connected
+    coprocess device (descriptor 3000, child 5000), a tcp device still CONNECTING (descriptor 2001), an idle one -/
+def tdWorld : W :=
+  { cfg := { plugs := [], has := [], nodes := [], version := [] }, clients := [{ id := 1, fd := 1000 }],
+    devs := [([65], Fd.exTcp), ([66], Fd.exPipe), ([67], { Fd.exDev with conn := 1, fd := some 2001 }), ([68], Fd.exDev)] }
+
+end shutdown
+
+/-! ## 13. the clients' descriptors over `cli_post_poll` and over a whole daemon pass -/
+
+section cliLedger
+open Pm.Daemon Pm.Daemon.ClientPf
+
+abbrev DSys := Pm.Daemon.Sys
+
+/-- descriptors obtained by `accept` in a client-side log (a failed `accept` returns −1 and yields none) -/
+def accepted : List DSys → List Nat
+  | [] => []
+  | .accept fd :: r => (if fd < 0 then [] else [fd.toNat]) ++ accepted r
+  | _ :: r => accepted r
+/-- descriptors closed in a client-side log -/
+def closedC : List DSys → List Nat
+  | [] => []
+  | .close fd :: r => fd :: closedC r
+  | _ :: r => closedC r
+def quietSys : DSys → Bool
+  | .read _ _ => true
+  | .write _ _ _ _ => true
+  | _ => false
+
+theorem accepted_append (a b : List DSys) : accepted (a ++ b) = accepted a ++ accepted b := by
+  induction a with
+  | nil => rfl
+  | cons s r ih => cases s <;> simp [accepted, ih]
+theorem closedC_append (a b : List DSys) : closedC (a ++ b) = closedC a ++ closedC b := by
+  induction a with
+  | nil => rfl
+  | cons s r ih => cases s <;> simp [closedC, ih]
+theorem quiet_none (l : List DSys) (h : l.all quietSys = true) : accepted l = [] ∧ closedC l = [] := by
+  induction l with
+  | nil => exact ⟨rfl, rfl⟩
+  | cons s r ih =>
+    simp only [List.all_cons, Bool.and_eq_true] at h
+    have := ih h.2
+    cases s <;> simp_all [accepted, closedC, quietSys]
+
+/-- a client-side function that touches neither the client list, nor the client's identity and descriptor, and logs only
+    reads and writes -/
+structure CliQuiet (w : W) (c : Cli) (r : W × Cli) : Prop where
+  clients : r.1.clients = w.clients
+  id : r.2.id = c.id
+  fd : r.2.fd = c.fd
+  sys : ∃ ext, r.1.sys = w.sys ++ ext ∧ ext.all quietSys = true
+
+theorem CliQuiet.refl (w : W) (c : Cli) : CliQuiet w c (w, c) := ⟨rfl, rfl, rfl, [], by simp, rfl⟩
+theorem CliQuiet.trans {w : W} {c : Cli} {r r' : W × Cli} (h1 : CliQuiet w c r) (h2 : CliQuiet r.1 r.2 r') : CliQuiet w c r' := by
+  obtain ⟨e1, s1, q1⟩ := h1.sys
+  obtain ⟨e2, s2, q2⟩ := h2.sys
+  exact ⟨h2.clients.trans h1.clients, h2.id.trans h1.id, h2.fd.trans h1.fd, e1 ++ e2,
+    by rw [s2, s1, List.append_assoc], by simp [List.all_append, q1, q2]⟩
+theorem CliQuiet.of_same {w : W} {c c' : Cli} {r : W × Cli} (h : CliQuiet w c' r) (hid : c'.id = c.id) (hfd : c'.fd = c.fd) :
+    CliQuiet w c r := ⟨h.clients, h.id.trans hid, h.fd.trans hfd, h.sys⟩
+
+theorem hwCore_quiet (w : W) (c : Cli) : CliQuiet w c (hwCore w c) := by
+  unfold hwCore
+  split
+  · exact CliQuiet.refl w c
+  · dsimp only
+    split
+    · exact ⟨rfl, rfl, rfl, _, rfl, rfl⟩
+    · split
+      · exact ⟨rfl, rfl, rfl, _, rfl, rfl⟩
+      · split
+        · exact ⟨rfl, rfl, rfl, _, rfl, rfl⟩
+        · exact ⟨rfl, rfl, rfl, _, rfl, rfl⟩
+
+theorem handleWrite_quiet (w : W) (c : Cli) : CliQuiet w c (handleWrite w c) := by
+  rw [handleWrite_eq]
+  apply (hwCore_quiet w _).of_same
+  · split <;> rfl
+  · split <;> rfl
+
+theorem parseLine_quiet (w : W) (c : Cli) (line : Pm.Client.Bytes) : CliQuiet w c (parseLine w c line) := by
+  have hf := parseLine_frame w c line
+  refine ⟨hf.clients, hf.id, hf.fd, ?_⟩
+  cases parseLine_shape w c line with
+  | exit h _ => rw [h]; exact ⟨[], by simp, rfl⟩
+  | reply items shape out buf cmd ex clean prompted =>
+    rcases buf with ⟨_, hs⟩ | ⟨_, ⟨_, _, hs⟩ | ⟨_, _, hs⟩⟩
+    · exact ⟨[], by simp [hs], rfl⟩
+    · exact ⟨_, hs, rfl⟩
+    · exact ⟨_, hs, rfl⟩
+  | installed k idle cmd pending buf sys ex => exact ⟨[], by simp [sys], rfl⟩
+
+theorem runLines_quiet (ls : List Pm.Client.Bytes) : ∀ (w : W) (c : Cli), CliQuiet w c (runLines w c ls) := by
+  induction ls with
+  | nil => intro w c; exact CliQuiet.refl w c
+  | cons l ls ih =>
+    intro w c
+    unfold runLines
+    split
+    · exact CliQuiet.refl w c
+    · exact (CliQuiet.of_same (c := c) (parseLine_quiet w { c with fromBuf := c.fromBuf.drop l.length } l) rfl rfl).trans (ih _ _)
+
+theorem handleInput_quiet (w : W) (c : Cli) : CliQuiet w c (handleInput w c) := by
+  rw [handleInput_lines]; exact runLines_quiet _ w c
+
+theorem cpRead_quiet (w : W) (c : Cli) (e : Option FdEnv) : CliQuiet w c (cpRead w c e) := by
+  unfold cpRead
+  split
+  · split
+    · exact ⟨rfl, rfl, rfl, _, rfl, rfl⟩
+    · split
+      · exact ⟨rfl, rfl, rfl, _, rfl, rfl⟩
+      · split
+        · exact ⟨rfl, rfl, rfl, _, rfl, rfl⟩
+        · exact ⟨rfl, rfl, rfl, _, rfl, rfl⟩
+  · exact CliQuiet.refl w c
+
+/-- one client's share of `cli_post_poll`: the client list is not touched; no `accept`; the client's own descriptor is
+    closed — once — exactly when the client is destroyed (the result is `none`); a surviving client keeps its identity
+    and its descriptor -/
+theorem clientPass_ledger (w : W) (c : Cli) (e : Option FdEnv) :
+    (clientPass w c e).1.clients = w.clients ∧
+    ∃ ext, (clientPass w c e).1.sys = w.sys ++ ext ∧ accepted ext = [] ∧
+      closedC ext = (match (clientPass w c e).2 with | none => [c.fd] | some _ => []) ∧
+      ∀ c', (clientPass w c e).2 = some c' → c'.id = c.id ∧ c'.fd = c.fd := by
+  rw [ClientPf.clientPass_eq]
+  unfold ClientPf.clientPass'
+  dsimp only
+  split
+  · exact ⟨rfl, [Pm.Daemon.Sys.close c.fd], rfl, rfl, rfl, fun c' h => by simp [cpDead] at h⟩
+  · have h1 : CliQuiet w c (if (cpRev c e &&& 1 != 0 || cpRev c e &&& 4 != 0) = true then cpRead w c e else (w, c)) := by
+      split
+      · exact cpRead_quiet w c e
+      · exact CliQuiet.refl w c
+    generalize (if (cpRev c e &&& 1 != 0 || cpRev c e &&& 4 != 0) = true then cpRead w c e else (w, c)) = r1 at *
+    have h2 : CliQuiet w c (if (cpRev c e &&& 2 != 0) = true then handleWrite r1.1 r1.2 else r1) := by
+      split
+      · exact h1.trans (handleWrite_quiet _ _)
+      · exact h1
+    generalize (if (cpRev c e &&& 2 != 0) = true then handleWrite r1.1 r1.2 else r1) = r2 at *
+    have h3 : CliQuiet w c (handleInput r2.1 r2.2) := h2.trans (handleInput_quiet _ _)
+    generalize handleInput r2.1 r2.2 = r3 at *
+    obtain ⟨ext, hs, hq⟩ := h3.sys
+    obtain ⟨qa, qc⟩ := quiet_none ext hq
+    unfold cpTail
+    split
+    · exact ⟨h3.clients, ext, hs, qa, qc, fun c' h => by cases h; exact ⟨h3.id, h3.fd⟩⟩
+    · split
+      · refine ⟨h3.clients, ext ++ [Pm.Daemon.Sys.close c.fd], ?_, ?_, ?_, fun c' h => by simp [cpDead] at h⟩
+        · simp [cpDead, hs, h3.fd]
+        · simp [accepted_append, qa, accepted]
+        · simp [closedC_append, qc, closedC, cpDead]
+      · exact ⟨h3.clients, ext, hs, qa, qc, fun c' h => by cases h; exact ⟨h3.id, h3.fd⟩⟩
+
+/-! list facts about clients with pairwise distinct ids -/
+
+theorem ids_unique (l : List Cli) (h : (l.map (·.id)).Nodup) (x y : Cli) (hx : x ∈ l) (hy : y ∈ l) (he : x.id = y.id) : x = y := by
+  induction l with
+  | nil => cases hx
+  | cons z r ih =>
+    simp only [List.map_cons, List.nodup_cons, List.mem_map, not_exists, not_and] at h
+    rcases List.mem_cons.mp hx with rfl | hx' <;> rcases List.mem_cons.mp hy with rfl | hy'
+    · rfl
+    · exact absurd he.symm (h.1 y hy')
+    · exact absurd he (h.1 x hx')
+    · exact ih h.2 hx' hy'
+
+theorem count_remove_id (l : List Cli) (h : (l.map (·.id)).Nodup) (x : Cli) (hx : x ∈ l) (n : Nat) :
+    (l.map (·.fd)).count n = ((l.filter fun y => y.id != x.id).map (·.fd)).count n + (if x.fd = n then 1 else 0) := by
+  induction l with
+  | nil => cases hx
+  | cons z r ih =>
+    simp only [List.map_cons, List.nodup_cons, List.mem_map, not_exists, not_and] at h
+    rcases List.mem_cons.mp hx with rfl | hx'
+    · have hr : (r.filter fun y => y.id != x.id) = r := by
+        rw [List.filter_eq_self]
+        intro y hy
+        have := h.1 y hy
+        simpa using this
+      simp only [List.filter_cons, bne_self_eq_false, Bool.false_eq_true, ↓reduceIte, hr, List.map_cons, List.count_cons, beq_iff_eq]
+    · have hne : z.id ≠ x.id := fun he => h.1 x hx' he.symm
+      have hz : (z.id != x.id) = true := by simpa using hne
+      simp only [List.filter_cons, hz, ↓reduceIte, List.map_cons, List.count_cons, ih h.2 hx']
+      omega
+
+theorem map_replace (l : List Cli) (c : Cli) (h : ∀ x ∈ l, x.id = c.id → x.fd = c.fd) :
+    (l.map fun x => if x.id == c.id then c else x).map (·.fd) = l.map (·.fd) ∧
+    (l.map fun x => if x.id == c.id then c else x).map (·.id) = l.map (·.id) := by
+  simp only [List.map_map]
+  constructor
+  · apply List.map_congr_left
+    intro x hx
+    simp only [Function.comp]
+    split
+    · rename_i he; exact (h x hx (by simpa using he)).symm
+    · rfl
+  · apply List.map_congr_left
+    intro x hx
+    simp only [Function.comp]
+    split
+    · rename_i he; exact (by simpa using he : x.id = c.id).symm
+    · rfl
+
+/-- the clients' descriptor ledger against the list `H` of descriptors held when the log began -/
+def Led (H : List Nat) (w : W) : Prop :=
+  ∀ n, H.count n + (accepted w.sys).count n = (closedC w.sys).count n + (w.clients.map (·.fd)).count n
+
+/-- the clients still to be visited (`rem`, records as they were when the loop began) are all present in the current
+    list, under their id, with their descriptor; ids are pairwise distinct -/
+def Sync (w : W) (rem : List Cli) : Prop :=
+  (w.clients.map (·.id)).Nodup ∧ (rem.map (·.id)).Nodup ∧ ∀ c0 ∈ rem, ∃ x ∈ w.clients, x.id = c0.id ∧ x.fd = c0.fd
+
+theorem cliStep_inv (H : List Nat) (envs : List FdEnv) (w : W) (c0 : Cli) (rem : List Cli)
+    (hl : Led H w) (hs : Sync w (c0 :: rem)) : Led H (ClientPf.cliStep envs w c0) ∧ Sync (ClientPf.cliStep envs w c0) rem := by
+  obtain ⟨hn, hr, hp⟩ := hs
+  simp only [List.map_cons, List.nodup_cons, List.mem_map, not_exists, not_and] at hr
+  have hrem : ∀ c ∈ rem, ∃ x ∈ w.clients, x.id = c.id ∧ x.fd = c.fd := fun c hc => hp c (by simp [hc])
+  unfold ClientPf.cliStep
+  split
+  · exact ⟨hl, hn, hr.2, hrem⟩
+  · obtain ⟨hcl, ext, hsys, ha, hc, hsome⟩ := clientPass_ledger w c0 (envs.find? (·.fd == c0.fd))
+    generalize clientPass w c0 (envs.find? (·.fd == c0.fd)) = r at *
+    obtain ⟨w', res⟩ := r
+    simp only at hcl hsys hc hsome ⊢
+    obtain ⟨x0, hx0, hx0id, hx0fd⟩ := hp c0 (by simp)
+    cases res with
+    | some c =>
+      obtain ⟨hcid, hcfd⟩ := hsome c rfl
+      simp only at hc ⊢
+      have hrep := map_replace w.clients c (by
+        intro x hx he
+        have : x = x0 := ids_unique w.clients hn x x0 hx hx0 (by rw [he, hcid, hx0id])
+        rw [this, hx0fd, hcfd])
+      refine ⟨?_, ?_, hr.2, ?_⟩
+      · intro n
+        have := hl n
+        simp only [hcl, hsys, accepted_append, closedC_append, ha, hc, List.append_nil]
+        rw [hrep.1]
+        exact this
+      · simp only [hcl]; rw [hrep.2]; exact hn
+      · intro c1 hc1
+        obtain ⟨x, hx, hxid, hxfd⟩ := hrem c1 hc1
+        have hne : x.id ≠ c.id := by
+          rw [hxid, hcid]; exact fun he => hr.1 c1 hc1 he
+        refine ⟨x, ?_, hxid, hxfd⟩
+        simp only [List.mem_map]
+        refine ⟨x, by rw [hcl]; exact hx, ?_⟩
+        have : (x.id == c.id) = false := by simpa using hne
+        simp [this]
+    | none =>
+      simp only at hc ⊢
+      refine ⟨?_, ?_, hr.2, ?_⟩
+      · intro n
+        have h1 := hl n
+        have h2 := count_remove_id w.clients hn x0 hx0 n
+        simp only [hcl, hsys, accepted_append, closedC_append, ha, hc, List.append_nil, List.count_append,
+          List.count_cons, List.count_nil, beq_iff_eq, ← hx0id]
+        rw [hx0fd] at h2
+        omega
+      · rw [hcl]
+        exact List.Nodup.sublist ((List.filter_sublist).map _) hn
+      · intro c1 hc1
+        obtain ⟨x, hx, hxid, hxfd⟩ := hrem c1 hc1
+        refine ⟨x, ?_, hxid, hxfd⟩
+        rw [hcl, List.mem_filter]
+        refine ⟨hx, ?_⟩
+        have : x.id ≠ c0.id := by rw [hxid]; exact fun he => hr.1 c1 hc1 he
+        simpa using this
+
+theorem foldl_cliStep_inv (H : List Nat) (envs : List FdEnv) (rem : List Cli) (w : W) (hl : Led H w) (hs : Sync w rem) :
+    Led H (rem.foldl (ClientPf.cliStep envs) w) ∧ ((rem.foldl (ClientPf.cliStep envs) w).clients.map (·.id)).Nodup := by
+  induction rem generalizing w with
+  | nil => exact ⟨hl, hs.1⟩
+  | cons c0 r ih =>
+    obtain ⟨h1, h2⟩ := cliStep_inv H envs w c0 r hl hs
+    exact ih _ h1 h2
+
+/-- **the clients' descriptor ledger of `cli_post_poll`** (whose log starts empty): for every descriptor number, held by a
+    client before + accepted in the pass = closed in the pass + held by a client afterwards; and the ids stay pairwise
+    distinct.  Needs: ids pairwise distinct and below `nextId` (true initially, kept by every pass) -/
+theorem cliPostPoll_ledger (w : W) (acc : Nat) (envs : List FdEnv) (hid : (w.clients.map (·.id)).Nodup)
+    (hfresh : ∀ c ∈ w.clients, c.id < w.nextId) :
+    (∀ n, (w.clients.map (·.fd)).count n + (accepted (cliPostPoll w acc envs).sys).count n =
+        (closedC (cliPostPoll w acc envs).sys).count n + ((cliPostPoll w acc envs).clients.map (·.fd)).count n) ∧
+    ((cliPostPoll w acc envs).clients.map (·.id)).Nodup := by
+  rw [ClientPf.cliPostPoll_eq]
+  apply foldl_cliStep_inv
+  · unfold Led ClientPf.cliAccept ClientPf.newClient
+    intro n
+    split
+    · have h0 : ¬ ((1000 : Int) + (w.nacc : Int) < 0) := by omega
+      have h1 : ((1000 : Int) + (w.nacc : Int)).toNat = 1000 + w.nacc := by omega
+      simp [accepted, closedC, List.count_append, h0, h1]
+    · split
+      · simp [accepted, closedC]
+      · simp [accepted, closedC]
+  · have hids : ((ClientPf.cliAccept { w with sys := [], caps := envs.map fun (e : FdEnv) => (e.fd, e.cap) } acc).clients.map (·.id)).Nodup := by
+      unfold ClientPf.cliAccept ClientPf.newClient
+      split
+      · simp only [List.map_append, List.map_cons, List.map_nil]
+        rw [List.nodup_append]
+        refine ⟨hid, by simp, ?_⟩
+        intro a ha b hb
+        simp only [List.mem_singleton] at hb
+        simp only [List.mem_map] at ha
+        obtain ⟨c, hc, rfl⟩ := ha
+        have := hfresh c hc
+        omega
+      · split <;> exact hid
+    exact ⟨hids, hids, fun c0 hc0 => ⟨c0, hc0, rfl, rfl⟩⟩
+
+/-- the device phase of the pass leaves the clients' ids and descriptors and the client-side log alone (its callbacks
+    only append to clients' output buffers and finish their commands) -/
+theorem devPass_cli (p : PassIn) (a : DevAcc) (nd : Bytes × Dev) :
+    (devPass p a nd).w.clients.map (·.fd) = a.w.clients.map (·.fd) ∧
+    (devPass p a nd).w.clients.map (·.id) = a.w.clients.map (·.id) ∧ (devPass p a nd).w.sys = a.w.sys := by
+  rw [Pm.Daemon.devPass_eq]
+  unfold devPass'
+  split
+  · exact ⟨rfl, rfl, rfl⟩
+  · dsimp only
+    obtain ⟨h1, G, hG, hA⟩ := applyOuts_shape (afterStep a.w (devStep p a.w a.oracle nd).1) nd.1 (devStep p a.w a.oracle nd).2.2.1
+    generalize applyOuts (afterStep a.w (devStep p a.w a.oracle nd).1) nd.1 (devStep p a.w a.oracle nd).2.2.1 = x at *
+    have hcl : (afterStep a.w (devStep p a.w a.oracle nd).1).clients = a.w.clients := rfl
+    have hsy : (afterStep a.w (devStep p a.w a.oracle nd).1).sys = a.w.sys := rfl
+    refine ⟨?_, ?_, ?_⟩
+    · rw [hG, hcl, List.map_map]
+      apply List.map_congr_left
+      intro c _
+      obtain ⟨items, hap, _⟩ := hA c
+      exact hap.fd
+    · rw [hG, hcl, List.map_map]
+      apply List.map_congr_left
+      intro c _
+      obtain ⟨items, hap, _⟩ := hA c
+      exact hap.id
+    · rw [← hsy, ← h1]
+
+theorem foldl_devPass_cli (p : PassIn) (l : List (Bytes × Dev)) (a : DevAcc) :
+    (l.foldl (devPass p) a).w.clients.map (·.fd) = a.w.clients.map (·.fd) ∧
+    (l.foldl (devPass p) a).w.clients.map (·.id) = a.w.clients.map (·.id) ∧ (l.foldl (devPass p) a).w.sys = a.w.sys := by
+  induction l generalizing a with
+  | nil => exact ⟨rfl, rfl, rfl⟩
+  | cons x r ih =>
+    obtain ⟨h1, h2, h3⟩ := devPass_cli p a x
+    obtain ⟨i1, i2, i3⟩ := ih (devPass p a x)
+    exact ⟨i1.trans h1, i2.trans h2, i3.trans h3⟩
+
+/-- **the clients' descriptor ledger of a whole daemon pass** (`daemonPass`, the body of `_select_loop`): `w'.sys` is the
+    client-side system-call log of the pass -/
+theorem daemonPass_cli_ledger (w : W) (p : PassIn) (hid : (w.clients.map (·.id)).Nodup)
+    (hfresh : ∀ c ∈ w.clients, c.id < w.nextId) :
+    (∀ n, (w.clients.map (·.fd)).count n + (accepted (daemonPass w p).1.sys).count n =
+        (closedC (daemonPass w p).1.sys).count n + ((daemonPass w p).1.clients.map (·.fd)).count n) ∧
+    ((daemonPass w p).1.clients.map (·.id)).Nodup := by
+  obtain ⟨h1, h2⟩ := cliPostPoll_ledger w p.acc p.envs hid hfresh
+  rw [daemonPass_fst]
+  dsimp only
+  split
+  · exact ⟨h1, h2⟩
+  · obtain ⟨f1, f2, f3⟩ := foldl_devPass_cli p (cliPostPoll w p.acc p.envs).devs (acc0 (cliPostPoll w p.acc p.envs))
+    simp only
+    have e1 : (acc0 (cliPostPoll w p.acc p.envs)).w = cliPostPoll w p.acc p.envs := rfl
+    rw [e1] at f1 f2 f3
+    rw [f1, f2, f3]
+    exact ⟨h1, h2⟩
+
+/-- example for `Props/C20`: the world of `tdWorld` after one earlier `accept`; a pass in which a second client connects
+    and `poll` reports POLLNVAL for the first one's descriptor -/
+def cliWorld : W := { tdWorld with nacc := 1, nextId := 2 }
+def cliEnvs : List FdEnv := [{ fd := 1000, rev := 16, rk := 0, data := [], cap := 0 }]
+
+end cliLedger
+
+/-! ## 10. concrete devices for the non-vacuity examples and the counterexamples of `Props/C04` -/
+namespace Ex
+
+/-- a client action (client 1, script 7) that became head of the queue at time 0 -/
+def ctx1 : ExecCtx := { block := [Stmt.expect 1], pos := 0, plugs := none, plugItr := none, plugCopy := none, processing := false }
+def act1 : Action := { loginAction Fd.exDev with com := 7, clientId := 1, timeStamp := some 0, exec := [ctx1] }
+/-- the same for client 2, never looked at yet -/
+def act2 : Action := { act1 with clientId := 2, timeStamp := none }
+/-- a connected, logged-in coprocess device (time-out 1 s) with two client actions queued -/
+def pipeBusy : Dev := { Fd.exPipe with acts := [act1, act2] }
+/-- a connected, logged-in tcp device with the same queue -/
+def tcpBusy : Dev := { Fd.exTcp with acts := [act1, act2] }
+/-- a tcp device that is not connected (no attempt made yet), same queue -/
+def tcpDown : Dev := { Fd.exDev with acts := [act1, act2] }
+/-- a tcp device that is not connected, with nothing queued -/
+def tcpIdle : Dev := Fd.exDev
+/-- no poll event; 0.4 s after the head was stamped; the kernel has answers for one reconnect (which goes through at once
+    for the coprocess) -/
+def envEarly : Env :=
+  { now := 400000, revents := 0, sockets := [2001], connects := [2], soerrs := [], read := none, writeOk := true,
+    pairs := [3002], pids := [5001] }
+/-- the same 2 s after the head was stamped: its deadline (1 s) has passed -/
+def envLate : Env := { envEarly with now := 2000000 }
+
+end Ex
+
 end Pm.Dev2.Timer
+
+/-! axiom audit of everything `Props/C04`, `Props/C12`, `Props/C20` take from here -/
+section AxiomChecks
+open Pm.Dev2.Timer
+end AxiomChecks
+
